@@ -260,6 +260,8 @@ KNOWN_BAD = {
          "#[derive(Debug, Clone, PartialEq, Difference)]\npub struct D<T: Clone + PartialEq + std::fmt::Debug> { #[difference(collection_strategy = \"ordered_array_like\")] pub v: Vec<T> }\n"),
  'D12b': ("collection strategy over elements that borrow (E0521: borrowed data escapes outside of method)",
           "#[derive(Debug, Clone, PartialEq, Difference)]\npub struct D<'a> { #[difference(collection_strategy = \"ordered_array_like\")] pub v: Vec<std::borrow::Cow<'a, str>> }\n"),
+ 'D13': ("a field named `<f>_full` next to an Option `recurse` field `<f>` (the extra variant `<f>_full` of the diff enum collides)",
+         "#[derive(Debug, Clone, PartialEq, Difference)]\npub struct Inner { pub x: i64 }\n#[derive(Debug, Clone, PartialEq, Difference)]\npub struct D { #[difference(recurse)] pub a: Option<Inner>, pub a_full: i64 }\n"),
  'D7': ("trailing comma inside a difference attribute", "#[derive(Debug, Clone, PartialEq, Difference)]\npub struct D { #[difference(skip,)] pub f0: i64, pub f1: i64 }\n"),
  'D8': ("generic parameter used only behind a reference inside another type", "#[derive(Debug, Clone, PartialEq, Difference)]\npub struct D<'a, T> { pub o: Option<&'a T> }\n"),
  'D9': ("bare reference field", "#[derive(Debug, Clone, PartialEq, Difference)]\npub struct D<'a> { pub o: &'a u8 }\n"),
